@@ -218,7 +218,8 @@ impl Polynomial<Cmplx> {
         if sgn >= 0.0 { sgn = 1.0; } else { sgn = -1.0; }
         let q: Cmplx = - 0.5 * ( b + discriminant.sqrt() * sgn );
         roots[0] = q / a;
-        roots[1] = c / q;
+        // q = 0 only if b = c = 0, i.e. for a x^2 = 0 with its double root at zero
+        roots[1] = if q == Cmplx::zero() { Cmplx::zero() } else { c / q };
         roots
     
     }
